@@ -25,11 +25,17 @@ var c06OptStates = []string{"v", "missing", "nil"}
 
 var c06OptNames = []string{"title", "sidebar", "slot", "toolbar", "left", "over", "v", "t-s", "vslot", "s", "o1", "default-x", "header2", "x_y"}
 
-func c06NOpt(ctx core.Ctx) int { return 3*81*2 + 3*2 + 3*2*2 + len(c06OptNames)*4*2 }
+func c06NOpt(ctx core.Ctx) int { return 3*81*2 + 3*2 + 3*2*2 + len(c06OptNames)*4*2 + 3*2 }
 
 func c06BuildOpt(i int) c06Case {
 	o := c06Opt{Entry: []string{"vue", "file"}[i%2]}
 	i /= 2
+	if i >= 3*81+3+6+len(c06OptNames)*4 {
+		// slot props computed by an expression that calls a function (the ones every expression can call: len, upper, lower)
+		o.Shape = "fnprops"
+		o.Form = c06OptForms[(i-(3*81+3+6+len(c06OptNames)*4))%3]
+		return c06Case{Part: "opt", Opt: &o}
+	}
 	if i >= 3*81+3+6 {
 		// slot names of every initial letter, in the long and the short supply form
 		j := i - (3*81 + 3 + 6)
@@ -120,8 +126,50 @@ func c06ExecOptNames(c c06Case, o *core.Obs) {
 	}
 }
 
+func c06ExecOptFnProps(c c06Case, o *core.Obs) {
+	op := c.Opt
+	body := `<b data-m="row">{{ p.n }}|{{ p.u }}|{{ p.l }}|{{ p.sum }}|{{ p.item.name }}</b>`
+	sup := `<template v-slot="p">` + body + `</template>`
+	switch op.Form {
+	case "destr":
+		sup = `<template v-slot="{ n, u, l, sum, item }">` + strings.NewReplacer("p.n", "n", "p.u", "u", "p.l", "l", "p.sum", "sum", "p.item", "item").Replace(body) + `</template>`
+	case "hash":
+		sup = `<template #default="p">` + body + `</template>`
+	}
+	page := `<template include="comp.vuego" :items="items">` + sup + `</template>`
+	comp := `<ul data-m="comp"><li v-for="(i, it) in items"><slot :n="len(items)" :u="upper(it.name)" :l="lower(it.name)" :sum="i + len(it.name)" :item="it">FB</slot></li></ul>`
+	files := map[string]string{"page.vuego": page, "comp.vuego": comp}
+	data := map[string]any{"items": []any{map[string]any{"name": "Ab"}, map[string]any{"name": "cDe"}}}
+	var out string
+	var err error
+	if op.Entry == "vue" {
+		out, err = renderVue(memFS(files), "page.vuego", data)
+	} else {
+		out, err = renderFile(memFS(files), "page.vuego", data)
+	}
+	o.Evals++
+	o.NT("opt-fnprops", mustJSON(op))
+	o.Cell("part/opt/fnprops/" + op.Form)
+	if err != nil {
+		o.Fail(c, "opt/fnprops/render-error", "render failed: %v\npage: %s", err, page)
+		return
+	}
+	var got []string
+	for _, r := range oracle.Parse(out, false).ByAttr("data-m", "row") {
+		got = append(got, r.InnerText())
+	}
+	want := []string{"2|AB|ab|2|Ab", "2|CDE|cde|4|cDe"}
+	if strings.Join(got, " ; ") != strings.Join(want, " ; ") {
+		o.Fail(c, "opt/fnprops/computed-prop-wrong-or-missing/"+op.Form, "slot props computed with len / upper / lower: want %v, got %v\npage: %s\ncomponent: %s\noutput: %s", want, got, page, comp, out)
+	}
+}
+
 func c06ExecOpt(c c06Case, o *core.Obs) {
 	op := c.Opt
+	if op.Shape == "fnprops" {
+		c06ExecOptFnProps(c, o)
+		return
+	}
 	if op.Shape == "names" {
 		c06ExecOptNames(c, o)
 		return
